@@ -1,4 +1,4 @@
-"""Reproduce the defects F1-F5, F7, F10, F11 of DESIGN.md s7 against the pyins in VERIF_REPO (default /repo).
+"""Reproduce the defects F1-F5, F7, F10-F13 of DESIGN.md s7 against the pyins in VERIF_REPO (default /repo).
 Prints one line per defect: `F<k> PRESENT|ABSENT <detail>`.  Not a registered check; used to
 document the fix commits and as a regression aid."""
 import os, sys, signal
@@ -123,9 +123,17 @@ def f12():
     asym = float(np.max(np.abs(Qd - Qd.T)) / np.max(np.abs(Qd)))
     return asym > 1e-9, "relative asymmetry of Qd = %.3g" % asym
 
+def f13():
+    from pyins import error_model
+    em = error_model.InsErrorModel(with_altitude=False)
+    p = pva0(VD=0.0)[['lat', 'lon', 'alt', 'roll', 'pitch', 'heading', 'VD', 'VE', 'VN']]
+    c = em.correct_pva(p, np.zeros(em.n_states))
+    bad = abs(c.VD) > 1e-9 or abs(c.roll - 1.0) > 1e-9 or abs(c.VN - 1.0) > 1e-9
+    return bad, f"correct_pva(permuted labels, x=0): VD = {float(c.VD):.3g}, roll = {float(c.roll):.3g}, VN = {float(c.VN):.3g} (expected 0, 1, 1)"
+
 
 if __name__ == "__main__":
-    which = sys.argv[1:] or ["F1", "F2", "F2b", "F3", "F3b", "F4", "F5", "F7", "F10", "F11", "F12"]
-    table = dict(F1=f1, F2=f2, F2b=f2b, F3=f3, F3b=f3b, F4=f4, F5=f5, F7=f7, F10=f10, F11=f11, F12=f12)
+    which = sys.argv[1:] or ["F1", "F2", "F2b", "F3", "F3b", "F4", "F5", "F7", "F10", "F11", "F12", "F13"]
+    table = dict(F1=f1, F2=f2, F2b=f2b, F3=f3, F3b=f3b, F4=f4, F5=f5, F7=f7, F10=f10, F11=f11, F12=f12, F13=f13)
     for w in which:
         run(w, table[w])
